@@ -146,6 +146,12 @@ def evaluate(case):
                     continue
                 if cnt[nm] > 1 or tov is not None:
                     continue
+                kind0 = K[ki][0].split("->")[0]
+                filtered = ("-L" in case["opts"] and kind0 == "slink") or ("-D" in case["opts"] and kind0 in ("chr", "blk")) or \
+                           ("-F" in case["opts"] and kind0 == "fifo") or ("-S" in case["opts"] and kind0 == "sock") or \
+                           ("-E" in case["opts"] and kind0.startswith("dir"))
+                if filtered:
+                    continue          # the user asked not to unpack entries of this kind
                 try:
                     st = os.lstat(os.path.join(base, nm))
                 except OSError:
@@ -210,6 +216,17 @@ def gen_cases(tier):
             for order in itertools.permutations([(0, k_sl, None), (0, 1, None), (others[0][0], others[0][1], None), (others[1][0], others[1][1], None)]):
                 add(list(order), opts=optsets[:1])
                 add(list(order), nested=True, opts=optsets[:1])      # nested: the directory holds exactly these four entries
+    # inode-type filters of the unpacker (--no-slink, --no-dev, --no-sock, --no-fifo, --no-empty-dir, --no-sparse): they look at the directory
+    # entry's type field, what is created is decided by the inode - with honest and with lying entry types
+    FILT = [["-L"], ["-D", "-S", "-F"], ["-E"], ["-Z"], ["-L", "-C", "-O"]]
+    for ki in range(nk):
+        for tov in (None, 1, 2, 3):
+            add([(0, ki, tov)], opts=FILT)
+    for k_sl in range(4, nk):
+        for tov in (None, 1, 2):
+            for order in itertools.permutations([(0, k_sl, tov), (0, 1, None), (4, 0, None)]):
+                add(list(order), opts=FILT[:1] + FILT[4:])
+                add(list(order), nested=True, opts=FILT[:1])
     # unpack of a sub path
     for ni in (0, 2, 6):
         for ki in (0, 1, 4, 5):
